@@ -17,6 +17,8 @@ def run(v, tier):
         kw = dict(nconstr=rng.choice([1, 2, 3]), naxioms=rng.choice([2, 3, 4]), nrules=rng.choice([0, 1, 2]), nsugar=rng.choice([0, 0, 1, 2]), nquoted=rng.choice([0, 0, 1, 2]))
         for z in ('none', 'all', 'random', 'dup'):   # the same database and derivation in four compression layouts
             text, lemmas = mmgen.database(random.Random(seed), nlemmas=1, zmode=z, deep=True, **kw)
+            if i % 3 == 1:       # variables whose $f declaration order is not the alphabetical order of their names
+                text = mmgen.retoken(text, mmgen.RENAME_VARS)
             reqs.append({'cmd': 'mmtr', 'text': text, 'target': 'goal', 'trace': z == 'all' and i % (3 if quick else 2) == 0})
             meta.append({'db': i, 'layout': z})
     # one rule applied to LARGE terms, every compound step marked: reuse slots numbered well beyond 140 (three-letter words)
